@@ -570,36 +570,45 @@ func (l *Linter) lintReturnStatement(stmt *ast.ReturnStatement, ctx *context.Con
 
 	// legal return actions are different in subroutine.
 	// https://developer.fastly.com/learning/vcl/using/#the-vcl-request-lifecycle
-	expects := make([]string, 0, 3)
-
-	switch ctx.Mode() {
-	case context.RECV:
+	// In a subroutine annotated with several scopes an action is legal when every one of the scopes allows it.
+	actions := map[int][]string{
 		// https://developer.fastly.com/reference/vcl/subroutines/recv/
-		expects = append(expects, "lookup", "pass", "error", "restart")
-	case context.HASH:
+		context.RECV: {"lookup", "pass", "error", "restart"},
 		// https://developer.fastly.com/reference/vcl/subroutines/hash/
-		expects = append(expects, "hash")
-	case context.HIT:
+		context.HASH: {"hash"},
 		// https://developer.fastly.com/reference/vcl/subroutines/hit/
-		expects = append(expects, "deliver", "pass", "error", "restart")
-	case context.MISS:
+		context.HIT: {"deliver", "pass", "error", "restart"},
 		// https://developer.fastly.com/reference/vcl/subroutines/miss/
-		expects = append(expects, "fetch", "deliver_stale", "pass", "error")
-	case context.PASS:
+		context.MISS: {"fetch", "deliver_stale", "pass", "error"},
 		// https://developer.fastly.com/reference/vcl/subroutines/pass/
-		expects = append(expects, "pass")
-	case context.FETCH:
+		context.PASS: {"pass"},
 		// https://developer.fastly.com/reference/vcl/subroutines/fetch/
-		expects = append(expects, "deliver", "deliver_stale", "hit_for_pass", "pass", "error", "restart")
-	case context.ERROR:
+		context.FETCH: {"deliver", "deliver_stale", "hit_for_pass", "pass", "error", "restart"},
 		// https://developer.fastly.com/reference/vcl/subroutines/error/
-		expects = append(expects, "deliver", "deliver_stale", "restart")
-	case context.DELIVER:
+		context.ERROR: {"deliver", "deliver_stale", "restart"},
 		// https://developer.fastly.com/reference/vcl/subroutines/deliver/
-		expects = append(expects, "deliver", "restart")
-	case context.LOG:
+		context.DELIVER: {"deliver", "restart"},
 		// https://developer.fastly.com/reference/vcl/subroutines/log/
-		expects = append(expects, "deliver")
+		context.LOG: {"deliver"},
+	}
+	var expects []string
+	first := true
+	for scope := context.RECV; scope <= context.LOG; scope <<= 4 {
+		if ctx.Mode()&scope == 0 {
+			continue
+		}
+		if first {
+			expects = append(expects, actions[scope]...)
+			first = false
+			continue
+		}
+		var common []string
+		for _, a := range expects {
+			if expectState(a, actions[scope]...) {
+				common = append(common, a)
+			}
+		}
+		expects = common
 	}
 
 	// If return statement does not have arguemnt, but Fastly requires next state in state-machine method like "vcl_recv"
